@@ -589,6 +589,10 @@ func riskyParam(r *rand.Rand, cl []Clause, risk string) ([]Clause, []param) {
 			c.Text = "head ~p~"
 		}
 	}
+	if risk == "param-empty" && r.Float64() < 0.5 {
+		// an in-file default that the empty -D value must still override
+		p.HasDefault, p.Default = true, "not empty"
+	}
 	i := r.Intn(len(cl) + 1)
 	out := append([]Clause{}, cl[:i]...)
 	out = append(out, c)
